@@ -338,8 +338,8 @@ func init() {
 			"matcher) predicts the reply class (2xx / refusal) of every MAIL and RCPT, the recipient count never exceeds the limit, and after " +
 			"every 250-acknowledged DATA exactly the store-eligible recipients' mailboxes gain the message (all mailboxes are read back). " +
 			"non-trivial = every run; distinct by configuration and dialogue shape",
-		Real: []string{"pkg/config (Process, envconfig)", "pkg/policy", "pkg/server/smtp", "pkg/message", "pkg/stringutil (wildcards)", "stores"},
-		Stub: []string{"TCP (simnet)", "scheduler", "clock", "disk"},
+		Real:        []string{"pkg/config (Process, envconfig)", "pkg/policy", "pkg/server/smtp", "pkg/message", "pkg/stringutil (wildcards)", "stores"},
+		Stub:        []string{"TCP (simnet)", "scheduler", "clock", "disk"},
 		Assumptions: []string{"local mailbox naming (naming is C04's subject)", "syntactically valid addresses only"},
 	})
 }
